@@ -54,8 +54,13 @@ type replicator struct {
 
 	buffer   []ipfslog.Log
 	muBuffer sync.Mutex
-	logger   *zap.Logger
-	tracer   trace.Tracer
+
+	// incomplete is set when an item of the current batch was abandoned or failed: the batch is
+	// then dropped instead of merged, because merging it would leave holes in the log that no
+	// later request fills (the entries above the hole are already known). Protected by muProcess.
+	incomplete bool
+	logger     *zap.Logger
+	tracer     trace.Tracer
 }
 
 type Options struct {
@@ -180,8 +185,9 @@ func (r *replicator) Load(ctx context.Context, entries []ipfslog.Entry) {
 		wg.Add(1)
 
 		// add one process
+		hash := entry.GetHash()
 		go func(_ int) {
-			if err := r.processOne(ctx, &wg); err != nil {
+			if err := r.processOne(ctx, &wg, hash); err != nil {
 				r.logger.Warn("unable to process entry", zap.Error(err))
 			}
 
@@ -194,15 +200,23 @@ func (r *replicator) Load(ctx context.Context, entries []ipfslog.Entry) {
 }
 
 // processOne wait for a process slot then process one element of the queue
-func (r *replicator) processOne(ctx context.Context, wg *sync.WaitGroup) error {
+func (r *replicator) processOne(ctx context.Context, wg *sync.WaitGroup, hash cid.Cid) error {
 	// wait for a process slot
-	e, err := r.waitForProcessSlot(ctx)
+	e, err := r.waitForProcessSlot(ctx, hash)
 	if err != nil {
+		// the request was aborted before this item was started: forget it so that a later
+		// request can queue it again
+		r.abandonQueuedItem(hash)
 		return err
 	}
 
 	if err := r.processItems(ctx, wg, e); err != nil {
 		r.logger.Warn("process item ended", zap.Error(err))
+
+		// the entry could not be fetched (failure or cancellation): forget it so that a later
+		// request fetches it again
+		r.processEntryFailed(e)
+		return nil
 	}
 
 	verifhook.Point("repl.beforeDone", e)
@@ -230,8 +244,9 @@ func (r *replicator) processItems(ctx context.Context, wg *sync.WaitGroup, items
 			wg.Add(1)
 
 			// add process
+			hash := hash
 			go func() {
-				if err := r.processOne(ctx, wg); err != nil {
+				if err := r.processOne(ctx, wg, hash); err != nil {
 					r.logger.Warn("unable to process entry", zap.Error(err))
 				}
 
@@ -284,6 +299,11 @@ func (r *replicator) processHash(ctx context.Context, item processItem) ([]cid.C
 		return nil, fmt.Errorf("unable to fetch log: %w", err)
 	}
 
+	// the fetcher reports a block it could not get (failure, cancellation) as a shorter result
+	if _, ok := l.Get(hash); !ok {
+		return nil, fmt.Errorf("unable to fetch entry %s", hash)
+	}
+
 	r.muBuffer.Lock()
 	r.buffer = append(r.buffer, l)
 	r.muBuffer.Unlock()
@@ -319,7 +339,7 @@ func (r *replicator) generateEmitter(bus event.Bus) error {
 	return nil
 }
 
-func (r *replicator) waitForProcessSlot(ctx context.Context) (e processItem, err error) {
+func (r *replicator) waitForProcessSlot(ctx context.Context, hash cid.Cid) (e processItem, err error) {
 	verifhook.Point("repl.beforeSlot", nil)
 
 	if err := r.sem.Acquire(ctx, 1); err != nil {
@@ -329,7 +349,11 @@ func (r *replicator) waitForProcessSlot(ctx context.Context) (e processItem, err
 
 	r.taskInProgress++
 
-	e = r.queue.Next()
+	// take the item this worker was started for
+	var ok bool
+	if e, ok = r.queue.Remove(hash); !ok {
+		e = newProcessHash(hash)
+	}
 	r.tasks[e.GetHash()] = stateFetching
 
 	r.muProcess.Unlock()
@@ -352,6 +376,40 @@ func (r *replicator) processEntryDone(item processItem) {
 	}
 
 	// signal that a process slot is available
+	r.sem.Release(1)
+
+	r.muProcess.Unlock()
+}
+
+// abandonQueuedItem forgets an item that was queued but never started
+func (r *replicator) abandonQueuedItem(hash cid.Cid) {
+	r.muProcess.Lock()
+
+	if _, ok := r.queue.Remove(hash); ok {
+		delete(r.tasks, hash)
+	}
+	r.incomplete = true
+
+	if r.isIdle() {
+		r.idle()
+	}
+
+	r.muProcess.Unlock()
+}
+
+// processEntryFailed releases the slot of an item whose fetch did not complete and forgets it
+func (r *replicator) processEntryFailed(item processItem) {
+	r.muProcess.Lock()
+
+	r.taskInProgress--
+
+	delete(r.tasks, item.GetHash())
+	r.incomplete = true
+
+	if r.isIdle() {
+		r.idle()
+	}
+
 	r.sem.Release(1)
 
 	r.muProcess.Unlock()
@@ -419,6 +477,17 @@ func (r *replicator) isIdle() bool {
 // idle is not thread safe
 func (r *replicator) idle() {
 	r.muBuffer.Lock()
+
+	if r.incomplete {
+		// drop what was fetched: everything is fetched again when it is announced again
+		r.incomplete = false
+		for _, l := range r.buffer {
+			for _, e := range l.GetEntries().Slice() {
+				delete(r.tasks, e.GetHash())
+			}
+		}
+		r.buffer = []ipfslog.Log{}
+	}
 
 	if len(r.buffer) > 0 {
 		if err := r.emitters.evtLoadEnd.Emit(NewEventLoadEnd(r.buffer)); err != nil {
